@@ -27,13 +27,15 @@ pub enum ModelKind {
     OneCol { n: usize, row: usize },
     Table { n: usize, m: usize, p: usize, base: Mat, slope: Vec<Mat> },
     RowScaled(Box<ModelKind>, Vec<f64>),
+    /// values of the inner kind, derivative k replaced by the k-th table
+    BadDeriv(Box<ModelKind>, Vec<Mat>),
 }
 
 impl ModelKind {
     pub fn spec(&self) -> Option<&ModelSpec> {
         match self {
             ModelKind::Built(s) | ModelKind::Hand(s) | ModelKind::HandRejecting(s) => Some(s),
-            ModelKind::RowScaled(k, _) => k.spec(),
+            ModelKind::RowScaled(k, _) | ModelKind::BadDeriv(k, _) => k.spec(),
             _ => None,
         }
     }
@@ -43,7 +45,7 @@ impl ModelKind {
             ModelKind::Designed(d) => d.n(),
             ModelKind::OneCol { n, .. } => *n,
             ModelKind::Table { n, .. } => *n,
-            ModelKind::RowScaled(k, _) => k.n(),
+            ModelKind::RowScaled(k, _) | ModelKind::BadDeriv(k, _) => k.n(),
         }
     }
     pub fn m(&self) -> usize {
@@ -52,7 +54,7 @@ impl ModelKind {
             ModelKind::Designed(d) => d.m(),
             ModelKind::OneCol { .. } => 1,
             ModelKind::Table { m, .. } => *m,
-            ModelKind::RowScaled(k, _) => k.m(),
+            ModelKind::RowScaled(k, _) | ModelKind::BadDeriv(k, _) => k.m(),
         }
     }
     pub fn np(&self) -> usize {
@@ -61,7 +63,7 @@ impl ModelKind {
             ModelKind::Designed(d) => d.np(),
             ModelKind::OneCol { .. } => 1,
             ModelKind::Table { p, .. } => *p,
-            ModelKind::RowScaled(k, _) => k.np(),
+            ModelKind::RowScaled(k, _) | ModelKind::BadDeriv(k, _) => k.np(),
         }
     }
     pub fn instantiate<T: Sc>(&self, alpha0: &[f64]) -> AnyModel<T> {
@@ -93,6 +95,7 @@ impl ModelKind {
             ModelKind::RowScaled(k, w) => {
                 AnyModel::RowScaled(Box::new(k.instantiate::<T>(alpha0)), dvec::<T>(w))
             }
+            ModelKind::BadDeriv(k, d) => AnyModel::BadDeriv(Box::new(k.instantiate::<T>(alpha0)), d.iter().map(|m| dmat::<T>(m)).collect()),
         }
     }
     /// The oracle's Φ(α) (evaluated in T, widened) — independent of varpro's routing.
@@ -120,6 +123,7 @@ impl ModelKind {
                 };
                 crate::sc::widen(&tm.phi_at(&tm.params))
             }
+            ModelKind::BadDeriv(k, _) => k.phi64::<T>(alpha),
             ModelKind::RowScaled(k, w) => {
                 // rows scaled in T, as the wrapped model does
                 let inner = k.phi64::<T>(alpha);
@@ -146,6 +150,7 @@ impl ModelKind {
                 let s = &slope[k];
                 Mat::from_fn(s.r, s.c, |i, j| crate::sc::rt::<T>(s.at(i, j)))
             }
+            ModelKind::BadDeriv(_, d) => Mat::from_fn(d[k].r, d[k].c, |i, j| crate::sc::rt::<T>(d[k].at(i, j))),
             ModelKind::RowScaled(kk, w) => {
                 let inner = kk.dphi64::<T>(alpha, k);
                 Mat::from_fn(inner.r, inner.c, |i, j| {
@@ -164,6 +169,7 @@ impl ModelKind {
             ModelKind::Table { n, m, p, base, slope } => json!({"table": {"n": n, "m": m, "p": p,
                 "base": fmt_vec(&base.d), "slope": slope.iter().map(|s| fmt_vec(&s.d)).collect::<Vec<_>>()}}),
             ModelKind::RowScaled(k, w) => json!({"rowscaled": {"inner": k.to_json(), "w": fmt_vec(w)}}),
+            ModelKind::BadDeriv(k, d) => json!({"bad_derivatives": {"inner": k.to_json(), "tables": d.iter().map(|m| fmt_vec(&m.d)).collect::<Vec<_>>()}}),
         }
     }
 }
@@ -241,11 +247,20 @@ impl ProblemSpec {
 
 pub type P<T, const M: bool, const PAR: bool> = LevMarProblem<Spy<T>, M, PAR>;
 
+/// a problem over varpro's own builder-made model, without the forwarding wrapper ("raw")
+pub type R<T, const M: bool, const PAR: bool> = LevMarProblem<varpro::model::SeparableModel<T>, M, PAR>;
+
 pub enum AnyProblem<T: Sc> {
     SS(P<T, false, false>),
     SP(P<T, false, true>),
     MS(P<T, true, false>),
     MP(P<T, true, true>),
+    /// the same four flavours over the builder-made model itself: the wrapper forwards the required
+    /// trait methods only, so whatever `SeparableModel` specialises beyond them is reachable only here
+    RSS(R<T, false, false>),
+    RSP(R<T, false, true>),
+    RMS(R<T, true, false>),
+    RMP(R<T, true, true>),
 }
 
 /// the builder's error type cannot be named from outside the crate; its Debug form carries the variant
@@ -258,7 +273,58 @@ pub fn build_problem<T: Sc>(spec: &ProblemSpec, ctl: &Arc<SpyCtl>) -> Result<Any
     build_problem_with(spec, model)
 }
 
+/// builder-made models: the problem is built over the `SeparableModel` itself (no wrapper, hence no
+/// fault injection and no call log)
+pub fn build_problem_raw<T: Sc>(spec: &ProblemSpec) -> Result<AnyProblem<T>, BuildErr> {
+    let ModelKind::Built(ms) = &spec.model else { panic!("raw problems need a builder-made model") };
+    build_problem_over(spec, build_model::<T>(ms, &spec.alpha0), true)
+}
+
+/// raw for every second builder-made specification, wrapped otherwise: for streams that need neither
+/// faults nor the call log
+pub fn build_problem_auto<T: Sc>(spec: &ProblemSpec) -> Result<AnyProblem<T>, BuildErr> {
+    if matches!(spec.model, ModelKind::Built(_)) && spec.hash() % 2 == 0 {
+        build_problem_raw(spec)
+    } else {
+        build_problem(spec, &SpyCtl::new())
+    }
+}
+
 pub fn build_problem_with<T: Sc>(spec: &ProblemSpec, model: Spy<T>) -> Result<AnyProblem<T>, BuildErr> {
+    build_problem_over(spec, model, false)
+}
+
+trait IntoAny<T: Sc> {
+    fn into_any(self, raw: bool) -> AnyProblem<T>;
+}
+macro_rules! into_any {
+    ($m:literal, $par:literal, $spied:ident, $raw:ident) => {
+        impl<T: Sc> IntoAny<T> for P<T, $m, $par> {
+            fn into_any(self, _raw: bool) -> AnyProblem<T> {
+                AnyProblem::$spied(self)
+            }
+        }
+        impl<T: Sc> IntoAny<T> for R<T, $m, $par> {
+            fn into_any(self, _raw: bool) -> AnyProblem<T> {
+                AnyProblem::$raw(self)
+            }
+        }
+    };
+}
+into_any!(false, false, SS, RSS);
+into_any!(false, true, SP, RSP);
+into_any!(true, false, MS, RMS);
+into_any!(true, true, MP, RMP);
+
+fn build_problem_over<T: Sc, M>(spec: &ProblemSpec, model: M, raw: bool) -> Result<AnyProblem<T>, BuildErr>
+where
+    M: SeparableNonlinearModel<ScalarType = T> + Send + Sync,
+    M::Error: Send,
+    LevMarProblem<M, false, false>: IntoAny<T>,
+    LevMarProblem<M, false, true>: IntoAny<T>,
+    LevMarProblem<M, true, false>: IntoAny<T>,
+    LevMarProblem<M, true, true>: IntoAny<T>,
+{
     let ymat: DMatrix<T> = dmat::<T>(&spec.y);
     // the order of the builder calls must not matter (C18): every problem of the harness is built
     // with a call order derived from its own content, so that all monitors see all orders
@@ -280,7 +346,8 @@ pub fn build_problem_with<T: Sc>(spec: &ProblemSpec, model: Spy<T>) -> Result<An
                     },
                 };
             }
-            b.build().map(AnyProblem::$variant).map_err(|e| format!("{e:?}"))
+            let _ = stringify!($variant);
+            b.build().map(|p| p.into_any(raw)).map_err(|e| format!("{e:?}"))
         }};
     }
     match (spec.mrhs, spec.par) {
@@ -304,6 +371,10 @@ macro_rules! each {
             AnyProblem::SP($p) => $e,
             AnyProblem::MS($p) => $e,
             AnyProblem::MP($p) => $e,
+            AnyProblem::RSS($p) => $e,
+            AnyProblem::RSP($p) => $e,
+            AnyProblem::RMS($p) => $e,
+            AnyProblem::RMP($p) => $e,
         }
     };
 }
@@ -327,6 +398,10 @@ impl<T: Sc> AnyProblem<T> {
             AnyProblem::SP(p) => p.linear_coefficients().map(|c| DMatrix::from_iterator(c.nrows(), 1, c.iter().cloned())),
             AnyProblem::MS(p) => p.linear_coefficients().map(|c| c.into_owned()),
             AnyProblem::MP(p) => p.linear_coefficients().map(|c| c.into_owned()),
+            AnyProblem::RSS(p) => p.linear_coefficients().map(|c| DMatrix::from_iterator(c.nrows(), 1, c.iter().cloned())),
+            AnyProblem::RSP(p) => p.linear_coefficients().map(|c| DMatrix::from_iterator(c.nrows(), 1, c.iter().cloned())),
+            AnyProblem::RMS(p) => p.linear_coefficients().map(|c| c.into_owned()),
+            AnyProblem::RMP(p) => p.linear_coefficients().map(|c| c.into_owned()),
         }
     }
     pub fn weighted_data(&self) -> DMatrix<T> {
@@ -341,16 +416,56 @@ impl<T: Sc> AnyProblem<T> {
             }
             AnyProblem::MS(p) => p.weighted_data().into_owned(),
             AnyProblem::MP(p) => p.weighted_data().into_owned(),
+            AnyProblem::RSS(p) => {
+                let d = p.weighted_data();
+                DMatrix::from_iterator(d.nrows(), 1, d.iter().cloned())
+            }
+            AnyProblem::RSP(p) => {
+                let d = p.weighted_data();
+                DMatrix::from_iterator(d.nrows(), 1, d.iter().cloned())
+            }
+            AnyProblem::RMS(p) => p.weighted_data().into_owned(),
+            AnyProblem::RMP(p) => p.weighted_data().into_owned(),
         }
     }
+    pub fn is_raw(&self) -> bool {
+        matches!(self, AnyProblem::RSS(_) | AnyProblem::RSP(_) | AnyProblem::RMS(_) | AnyProblem::RMP(_))
+    }
+    /// the wrapper of a wrapped problem (raw problems have none)
     pub fn model(&self) -> &Spy<T> {
-        each!(self, p => p.model())
+        match self {
+            AnyProblem::SS(p) => p.model(),
+            AnyProblem::SP(p) => p.model(),
+            AnyProblem::MS(p) => p.model(),
+            AnyProblem::MP(p) => p.model(),
+            _ => panic!("a raw problem has no model wrapper"),
+        }
+    }
+    pub fn model_kind(&self) -> &'static str {
+        if self.is_raw() {
+            "built (no wrapper)"
+        } else {
+            self.model().inner.kind()
+        }
+    }
+    /// the model's own eval() at the parameters in effect
+    pub fn model_eval(&self) -> Option<DMatrix<T>> {
+        match self {
+            AnyProblem::SS(p) => p.model().inner.eval().ok(),
+            AnyProblem::SP(p) => p.model().inner.eval().ok(),
+            AnyProblem::MS(p) => p.model().inner.eval().ok(),
+            AnyProblem::MP(p) => p.model().inner.eval().ok(),
+            AnyProblem::RSS(p) => p.model().eval().ok(),
+            AnyProblem::RSP(p) => p.model().eval().ok(),
+            AnyProblem::RMS(p) => p.model().eval().ok(),
+            AnyProblem::RMP(p) => p.model().eval().ok(),
+        }
     }
     pub fn is_par(&self) -> bool {
-        matches!(self, AnyProblem::SP(_) | AnyProblem::MP(_))
+        matches!(self, AnyProblem::SP(_) | AnyProblem::MP(_) | AnyProblem::RSP(_) | AnyProblem::RMP(_))
     }
     pub fn is_mrhs(&self) -> bool {
-        matches!(self, AnyProblem::MS(_) | AnyProblem::MP(_))
+        matches!(self, AnyProblem::MS(_) | AnyProblem::MP(_) | AnyProblem::RMS(_) | AnyProblem::RMP(_))
     }
     pub fn into_sequential(self) -> AnyProblem<T> {
         match self {
@@ -358,20 +473,47 @@ impl<T: Sc> AnyProblem<T> {
             AnyProblem::SP(p) => AnyProblem::SS(p.into_sequential()),
             AnyProblem::MS(p) => AnyProblem::MS(p.into_sequential()),
             AnyProblem::MP(p) => AnyProblem::MS(p.into_sequential()),
+            AnyProblem::RSS(p) => AnyProblem::RSS(p.into_sequential()),
+            AnyProblem::RSP(p) => AnyProblem::RSS(p.into_sequential()),
+            AnyProblem::RMS(p) => AnyProblem::RMS(p.into_sequential()),
+            AnyProblem::RMP(p) => AnyProblem::RMS(p.into_sequential()),
         }
     }
     /// W·Φ through varpro's own public `Weights` multiplication and the model's
     /// own `eval` — bit-identical to the matrix `set_params` decomposes.
     pub fn weighted_phi(&self) -> Option<DMatrix<T>> {
-        each!(self, p => p.model().inner.eval().ok().map(|phi| p.weights() * phi))
+        let phi = self.model_eval()?;
+        Some(each!(self, p => p.weights() * phi))
     }
     /// the real `LevMarSolver::fit`
     pub fn fit(self, lm: &LevenbergMarquardt<T>) -> AnyFit<T> {
+        fn wrap<F>(r: Result<F, F>) -> (bool, F) {
+            match r {
+                Ok(f) => (true, f),
+                Err(f) => (false, f),
+            }
+        }
         match self {
             AnyProblem::SS(p) => AnyFit::from_s(LevMarSolver::with_solver(*lm).fit(p)),
             AnyProblem::SP(p) => AnyFit::from_s(LevMarSolver::with_solver(*lm).fit(p)),
             AnyProblem::MS(p) => AnyFit::from_m(LevMarSolver::with_solver(*lm).fit(p)),
             AnyProblem::MP(p) => AnyFit::from_m(LevMarSolver::with_solver(*lm).fit(p)),
+            AnyProblem::RSS(p) => {
+                let (ok, fit) = wrap(LevMarSolver::with_solver(*lm).fit(p));
+                AnyFit::RS { ok, fit }
+            }
+            AnyProblem::RSP(p) => {
+                let (ok, fit) = wrap(LevMarSolver::with_solver(*lm).fit(p));
+                AnyFit::RS { ok, fit }
+            }
+            AnyProblem::RMS(p) => {
+                let (ok, fit) = wrap(LevMarSolver::with_solver(*lm).fit(p));
+                AnyFit::RM { ok, fit }
+            }
+            AnyProblem::RMP(p) => {
+                let (ok, fit) = wrap(LevMarSolver::with_solver(*lm).fit(p));
+                AnyFit::RM { ok, fit }
+            }
         }
     }
     /// the real `LevMarSolver::fit_with_statistics` (single right-hand side only)
@@ -379,7 +521,7 @@ impl<T: Sc> AnyProblem<T> {
         let r = match self {
             AnyProblem::SS(p) => LevMarSolver::with_solver(*lm).fit_with_statistics(p),
             AnyProblem::SP(p) => LevMarSolver::with_solver(*lm).fit_with_statistics(p),
-            _ => panic!("fit_with_statistics needs a single right-hand side"),
+            _ => panic!("fit_with_statistics needs a wrapped problem with a single right-hand side (raw problems: statfit::fit_stats)"),
         };
         match r {
             Ok((f, s)) => Ok((AnyFit::S { ok: true, fit: f }, s)),
@@ -391,6 +533,24 @@ impl<T: Sc> AnyProblem<T> {
 pub enum AnyFit<T: Sc> {
     S { ok: bool, fit: FitResult<Spy<T>, false> },
     M { ok: bool, fit: FitResult<Spy<T>, true> },
+    RS { ok: bool, fit: FitResult<varpro::model::SeparableModel<T>, false> },
+    RM { ok: bool, fit: FitResult<varpro::model::SeparableModel<T>, true> },
+}
+
+/// `single` for the single right-hand-side results, `multi` for the others (same expression for the
+/// wrapped and the raw variant)
+macro_rules! fits {
+    ($self:expr, $f:ident => single $e1:expr, multi $e2:expr) => {
+        match $self {
+            AnyFit::S { fit: $f, .. } => $e1,
+            AnyFit::RS { fit: $f, .. } => $e1,
+            AnyFit::M { fit: $f, .. } => $e2,
+            AnyFit::RM { fit: $f, .. } => $e2,
+        }
+    };
+    ($self:expr, $f:ident => $e:expr) => {
+        fits!($self, $f => single $e, multi $e)
+    };
 }
 
 impl<T: Sc> AnyFit<T> {
@@ -408,14 +568,11 @@ impl<T: Sc> AnyFit<T> {
     }
     pub fn is_ok(&self) -> bool {
         match self {
-            AnyFit::S { ok, .. } | AnyFit::M { ok, .. } => *ok,
+            AnyFit::S { ok, .. } | AnyFit::M { ok, .. } | AnyFit::RS { ok, .. } | AnyFit::RM { ok, .. } => *ok,
         }
     }
     pub fn report(&self) -> &MinimizationReport<T> {
-        match self {
-            AnyFit::S { fit, .. } => &fit.minimization_report,
-            AnyFit::M { fit, .. } => &fit.minimization_report,
-        }
+        fits!(self, fit => &fit.minimization_report)
     }
     pub fn termination(&self) -> String {
         format!("{:?}", self.report().termination)
@@ -424,81 +581,55 @@ impl<T: Sc> AnyFit<T> {
         self.report().termination.was_successful()
     }
     pub fn was_successful(&self) -> bool {
-        match self {
-            AnyFit::S { fit, .. } => fit.was_successful(),
-            AnyFit::M { fit, .. } => fit.was_successful(),
-        }
+        fits!(self, fit => fit.was_successful())
     }
     pub fn nonlinear_parameters(&self) -> DVector<T> {
-        match self {
-            AnyFit::S { fit, .. } => fit.nonlinear_parameters(),
-            AnyFit::M { fit, .. } => fit.nonlinear_parameters(),
-        }
+        fits!(self, fit => fit.nonlinear_parameters())
     }
     /// coefficients through FitResult::linear_coefficients
     pub fn coeffs(&self) -> Option<DMatrix<T>> {
-        match self {
-            AnyFit::S { fit, .. } => fit
-                .linear_coefficients()
-                .map(|c| DMatrix::from_iterator(c.nrows(), 1, c.iter().cloned())),
-            AnyFit::M { fit, .. } => fit.linear_coefficients().map(|c| c.into_owned()),
-        }
+        fits!(self, fit => single fit.linear_coefficients().map(|c| DMatrix::from_iterator(c.nrows(), 1, c.iter().cloned())),
+            multi fit.linear_coefficients().map(|c| c.into_owned()))
     }
     /// best fit and whether it had the documented shape (vector for single, matrix for MRHS)
     pub fn best_fit(&self) -> Option<DMatrix<T>> {
-        match self {
-            AnyFit::S { fit, .. } => fit
-                .best_fit()
-                .map(|v: DVector<T>| DMatrix::from_iterator(v.nrows(), 1, v.iter().cloned())),
-            AnyFit::M { fit, .. } => fit.best_fit(),
-        }
+        fits!(self, fit => single fit.best_fit().map(|v: DVector<T>| DMatrix::from_iterator(v.nrows(), 1, v.iter().cloned())),
+            multi fit.best_fit())
     }
     pub fn problem_residuals(&self) -> Option<DVector<T>> {
-        match self {
-            AnyFit::S { fit, .. } => fit.problem.residuals(),
-            AnyFit::M { fit, .. } => fit.problem.residuals(),
-        }
+        fits!(self, fit => fit.problem.residuals())
     }
     pub fn problem_jacobian(&self) -> Option<DMatrix<T>> {
-        match self {
-            AnyFit::S { fit, .. } => fit.problem.jacobian(),
-            AnyFit::M { fit, .. } => fit.problem.jacobian(),
-        }
+        fits!(self, fit => fit.problem.jacobian())
     }
     pub fn problem_params(&self) -> DVector<T> {
-        match self {
-            AnyFit::S { fit, .. } => fit.problem.params(),
-            AnyFit::M { fit, .. } => fit.problem.params(),
-        }
+        fits!(self, fit => fit.problem.params())
     }
     pub fn problem_coeffs(&self) -> Option<DMatrix<T>> {
-        match self {
-            AnyFit::S { fit, .. } => fit
-                .problem
-                .linear_coefficients()
-                .map(|c| DMatrix::from_iterator(c.nrows(), 1, c.iter().cloned())),
-            AnyFit::M { fit, .. } => fit.problem.linear_coefficients().map(|c| c.into_owned()),
-        }
+        fits!(self, fit => single fit.problem.linear_coefficients().map(|c| DMatrix::from_iterator(c.nrows(), 1, c.iter().cloned())),
+            multi fit.problem.linear_coefficients().map(|c| c.into_owned()))
     }
     pub fn weighted_data(&self) -> DMatrix<T> {
-        match self {
-            AnyFit::S { fit, .. } => {
+        fits!(self, fit => single {
                 let d = fit.problem.weighted_data();
                 DMatrix::from_iterator(d.nrows(), 1, d.iter().cloned())
-            }
-            AnyFit::M { fit, .. } => fit.problem.weighted_data().into_owned(),
-        }
+            },
+            multi fit.problem.weighted_data().into_owned())
     }
     pub fn weighted_phi(&self) -> Option<DMatrix<T>> {
         match self {
             AnyFit::S { fit, .. } => fit.problem.model().inner.eval().ok().map(|phi| fit.problem.weights() * phi),
             AnyFit::M { fit, .. } => fit.problem.model().inner.eval().ok().map(|phi| fit.problem.weights() * phi),
+            AnyFit::RS { fit, .. } => fit.problem.model().eval().ok().map(|phi| fit.problem.weights() * phi),
+            AnyFit::RM { fit, .. } => fit.problem.model().eval().ok().map(|phi| fit.problem.weights() * phi),
         }
     }
     pub fn into_problem(self) -> AnyProblem<T> {
         match self {
             AnyFit::S { fit, .. } => AnyProblem::SS(fit.problem),
             AnyFit::M { fit, .. } => AnyProblem::MS(fit.problem),
+            AnyFit::RS { fit, .. } => AnyProblem::RSS(fit.problem),
+            AnyFit::RM { fit, .. } => AnyProblem::RMS(fit.problem),
         }
     }
 }
